@@ -687,7 +687,7 @@ func ruleAtom2(c *Ctx, r *Reporter) {
 			continue
 		}
 		var itemCalls []*ssa.Call
-		allInstrs(fn, func(in ssa.Instruction) {
+		coneInstrs(fn, func(in ssa.Instruction) {
 			if call, ok := in.(*ssa.Call); ok {
 				if f := calleeObj(&call.Call); f != nil && f.Pkg() != nil && f.Pkg().Path() == pkgLungo && helpers[fullShort(f)] {
 					itemCalls = append(itemCalls, call)
@@ -698,9 +698,11 @@ func ruleAtom2(c *Ctx, r *Reporter) {
 			r.bad(name+":per-item helper calls", c.pos(fn.Pos()), "no call of a per-item helper found")
 			continue
 		}
+		// the item loop may live in a private helper of the method (the method keeps the clone and the final store)
+		body := itemCalls[0].Parent()
 		// the final store of t.catalog
 		var final *ssa.Store
-		allInstrs(fn, func(in ssa.Instruction) {
+		coneInstrs(fn, func(in ssa.Instruction) {
 			if st, ok := in.(*ssa.Store); ok {
 				if _, ok := fieldAddrOf(st.Addr, catF); ok {
 					final = st
@@ -709,7 +711,7 @@ func ruleAtom2(c *Ctx, r *Reporter) {
 		})
 		// assign-back map updates on the cloned catalog
 		var updates []*ssa.MapUpdate
-		allInstrs(fn, func(in ssa.Instruction) {
+		allInstrs(body, func(in ssa.Instruction) {
 			if mu, ok := in.(*ssa.MapUpdate); ok && isLoadOf(mu.Map, nsF) && inLoop(mu.Block()) {
 				updates = append(updates, mu)
 			}
@@ -790,7 +792,16 @@ func ruleAtom2(c *Ctx, r *Reporter) {
 						}
 						return false
 					}
-					if bad := exitWithoutPassing(mine[1], passOrErr, nil); bad != nil {
+					start := ssa.Instruction(mine[1])
+					if final.Parent() != body {
+						// the loop's function returns to the method, which decides: continue from the helper call
+						if site := helperSite(body); site != nil && site.Parent() == final.Parent() {
+							start = site
+						}
+					}
+					if start.Parent() != final.Parent() {
+						problems = append(problems, "the final store of t.catalog is not in the function that runs the item loop nor in its only caller")
+					} else if bad := exitWithoutPassing(start, passOrErr, nil); bad != nil {
 						problems = append(problems, fmt.Sprintf("after a successful item the return at %s is reachable without passing the final `t.catalog = clone` decision: the reported items would not take effect", c.pos(bad.Pos())))
 					}
 				}
